@@ -57,3 +57,62 @@ fn footer_size_constant() {
     assert!(FOOTER_SIZE == FOOTER_MAGIC.len() + 8 + 32 + 8);
     assert!(FOOTER_SIZE == 56);
 }
+
+// ---- hash_matches: the predicate Verus sees as `spec_hash_ok` is "blake3(toc) == toc_hash", all 32 bytes.
+// blake3's Hasher is replaced by a ghost accumulator (A-HASH): update folds every byte and the length into
+// GHOST_ACC, finalize returns it.  The obligation: hash_matches(f, toc) <=> H(toc) == f.toc_hash, where H is
+// the same fold computed directly.  TOC length L enumerated (the loop is in the stub, not in the real code).
+static mut GHOST_ACC: [u8; 32] = [0u8; 32];
+static mut GHOST_UPDATES: u32 = 0;
+
+fn fold(acc: &mut [u8; 32], data: &[u8]) {
+    let mut i = 0;
+    while i < data.len() {
+        let k = i % 32;
+        acc[k] = acc[k].rotate_left(3) ^ data[i] ^ (i as u8);
+        i += 1;
+    }
+    acc[31] ^= data.len() as u8;
+}
+
+pub(super) fn hasher_new_stub() -> Hasher {
+    unsafe {
+        GHOST_ACC = [0x5Au8; 32];
+        GHOST_UPDATES = 0;
+        core::mem::zeroed()
+    }
+}
+pub(super) fn hasher_update_stub<'a>(h: &'a mut Hasher, d: &[u8]) -> &'a mut Hasher {
+    unsafe {
+        let mut acc = GHOST_ACC;
+        fold(&mut acc, d);
+        GHOST_ACC = acc;
+        GHOST_UPDATES += 1;
+    }
+    h
+}
+pub(super) fn hasher_finalize_stub(_h: &Hasher) -> blake3::Hash {
+    blake3::Hash::from_bytes(unsafe { GHOST_ACC })
+}
+
+macro_rules! hash_matches_contract {
+    ($name:ident, $l:expr) => {
+        #[kani::proof]
+        #[kani::stub(blake3::Hasher::new, hasher_new_stub)]
+        #[kani::stub(blake3::Hasher::update, hasher_update_stub)]
+        #[kani::stub(blake3::Hasher::finalize, hasher_finalize_stub)]
+        #[kani::unwind(34)]
+        fn $name() {
+            let toc: [u8; $l] = kani::any();
+            let f = CommitFooter { toc_len: kani::any(), toc_hash: kani::any(), generation: kani::any() };
+            let mut want = [0x5Au8; 32];
+            fold(&mut want, &toc);
+            let got = f.hash_matches(&toc);
+            assert!(got == (want == f.toc_hash), "hash_matches <=> H(toc) == toc_hash on all 32 bytes");
+            kani::cover!(got, "some footer matches");
+            kani::cover!(!got, "some footer does not match");
+        }
+    };
+}
+hash_matches_contract!(footer_hash_matches_l1, 1);
+hash_matches_contract!(footer_hash_matches_l5, 5);
